@@ -387,6 +387,25 @@ STD_CHAR_CLASSES = {
 }
 
 
+def char_pred(ctx, fn, params, a, b=None):
+    """a pure char/byte -> bool function decided for one point: by pattern expansion when its body is a plain match, else by
+    evaluating its typed tree (tuple matches, helper calls, iterator idioms, ...); ValueError when neither establishes it"""
+    try:
+        return eval_char_fn(thir.body_of(fn), params, a, b)
+    except (ValueError, KeyError, TypeError, AttributeError):
+        pass
+    from .. import peval
+    pe = peval.PEval(ctx.lib, ctx.an)
+    args = [a if isinstance(a, int) else ord(a)] + ([] if b is None else [b if isinstance(b, int) else ord(b)])
+    try:
+        got = pe.call_fn(fn, args)
+    except peval.OutOfFuel:
+        raise ValueError("no termination")
+    if not isinstance(got, bool):
+        raise ValueError("not established %s" % pe.unknown_reasons[:1])
+    return got
+
+
 def eval_char_fn(fn_body, params, a, b):
     """Evaluate the pure char->bool match of should_break_with_space for characters a, b by pattern expansion."""
     env = {params[0]: a if isinstance(a, int) else ord(a)}
@@ -465,8 +484,7 @@ def eval_char_fn(fn_body, params, a, b):
     return val(fn_body)
 
 
-def fuse(R, ctx):
-    rid = "C02.fuse"
+def fuse(R, ctx, rid="C02.fuse"):
     lib = ctx.lib
     R.rule(rid, "should_break_with_space(last, next), read as a decision table over ASCII character pairs (pattern ranges expanded, no code is run), "
                 "answers true for every pair that Lua's lexer would fuse into a different token (reference table from the manual); one-sided: "
@@ -492,7 +510,7 @@ def fuse(R, ctx):
                 if (a, b) in FUSE_NOT_APPLICABLE:
                     continue
                 n += 1
-                got = eval_char_fn(thir.body_of(fn), params, a, b)
+                got = char_pred(ctx, fn, params, a, b)
                 if not got:
                     cls = ("digit" if a.isdigit() else "letter" if a.isalpha() else a, "digit" if b.isdigit() else "letter" if b.isalpha() else b)
                     missing.setdefault(cls, []).append(a + b)
